@@ -333,6 +333,15 @@ class C01(Prop):
                 for agg in ('appendExtend', 'tupMut', 'nestMut'):
                     out.append({'xs': xs, 'n': n, 'ops': [], 'action': {'name': 'aggregate', 'agg': agg}})
                 out.append({'xs': xs, 'n': n, 'ops': [{'op': 'filter', 'f': 'false'}], 'action': {'name': 'reduce', 'f': 'add'}})
+        # re-partitioning after a size-changing step, also to the partition count the dataset already has: the layout
+        # seen by glom / the partition-wise steps is the even re-split, not the old uneven contents
+        for ln in (4, 6, 7):
+            for n in (2, 3, 4):
+                for m in (1, 2, 3, 4, 5):
+                    for pre in ({'op': 'filter', 'f': 'even'}, {'op': 'flatMap', 'f': 'dup'}):
+                        for repart in ('repartition', 'coalesce'):
+                            out.append({'xs': list(range(ln)), 'n': n, 'ops': [pre, {'op': repart, 'm': m}, {'op': 'glom'}],
+                                        'action': {'name': 'collect'}})
         return out
 
     def nontrivial(self, case):
